@@ -1,4 +1,58 @@
+//! `mc <ID> [--tier quick|thorough] [--replay <file>]` — the checker binary.
+//! Exit codes: 0 property held on everything explored (known findings printed),
+//! 1 violation (VIOLATION line printed), 2 machinery error (never a verdict).
+mod engine;
+mod c10;
+
 fn main() {
-  rustdds::verif::clock::install(1);
-  println!("{:?}", rustdds::verif::clock::timestamp());
+  let args: Vec<String> = std::env::args().collect();
+  if args.len() < 2 {
+    eprintln!("usage: mc <ID> [--tier quick|thorough] [--replay file]");
+    std::process::exit(2);
+  }
+  let id = args[1].as_str();
+  let mut tier = std::env::var("VERIF_TIER").unwrap_or_else(|_| "quick".into());
+  let mut replay: Option<String> = None;
+  let mut i = 2;
+  while i < args.len() {
+    match args[i].as_str() {
+      "--tier" => {
+        tier = args[i + 1].clone();
+        i += 1;
+      }
+      "--replay" => {
+        replay = Some(args[i + 1].clone());
+        i += 1;
+      }
+      other => {
+        eprintln!("unknown argument {other}");
+        std::process::exit(2);
+      }
+    }
+    i += 1;
+  }
+  if tier != "quick" && tier != "thorough" {
+    eprintln!("unknown tier {tier}");
+    std::process::exit(2);
+  }
+  engine::install_quiet_panic_hook();
+  let replay_doc = replay.map(|p| {
+    let s = std::fs::read_to_string(&p).unwrap_or_else(|e| {
+      eprintln!("cannot read replay {p}: {e}");
+      std::process::exit(2)
+    });
+    serde_json::from_str::<serde_json::Value>(&s).unwrap_or_else(|e| {
+      eprintln!("cannot parse replay {p}: {e}");
+      std::process::exit(2)
+    })
+  });
+  let code = match (id, replay_doc) {
+    ("C10", None) => c10::run(&tier),
+    ("C10", Some(d)) => c10::replay(&d),
+    _ => {
+      eprintln!("no check for {id} in this build");
+      2
+    }
+  };
+  std::process::exit(code);
 }
